@@ -171,7 +171,7 @@ class Session:
         cache[key] = out
         return out
 
-    def rule_env(self, r, dag, params, arg_overrides=None):
+    def rule_env(self, r, dag, params, arg_overrides=None, sign_fn=None):
         env, notes = {}, []
         for a, ann in r.args:
             if a.endswith("_params"):
@@ -194,13 +194,17 @@ class Session:
                 k = _ann_kind(ann)
                 pk = {k} if k else {"obj"}
                 notes.append(("producer-missing", a))
-            env[a] = Abs(pk, deps={a}, sym=a, sign=self.producer_sign(dag, a))
+            sg = sign_fn(a) if sign_fn else self.producer_sign(dag, a)
+            if isinstance(sg, tuple):  # (sign, lower bound, upper bound) from the interval prover
+                env[a] = Abs(pk, deps={a}, sym=a, sign=sg[0], lb=sg[1], ub=sg[2])
+            else:
+                env[a] = Abs(pk, deps={a}, sym=a, sign=sg)
         return env, notes
 
-    def analyse_rule(self, r, date, mode="kinds", assign=None, arg_overrides=None):
+    def analyse_rule(self, r, date, mode="kinds", assign=None, arg_overrides=None, sign_fn=None):
         params, _, _ = self.em.params(date)
         dag = self.dag(date)
-        env, notes = self.rule_env(r, dag, params, arg_overrides)
+        env, notes = self.rule_env(r, dag, params, arg_overrides, sign_fn)
         it = Interp(self.repo, r.mod, mode=mode, assign=assign)
         res, rets = it.run_function(r.node, env)
         return RuleResult(r, date, res, rets, it, notes)
